@@ -212,9 +212,12 @@ class Evaluator:
         # defaults
         dfl = fi.defaults()
         dfr = Frame(self, fi, mi, {}, depth)
+        pre = getattr(fi, "_eval_defaults", None)
         for name in pos + [p.arg for p in a.kwonlyargs]:
             if name not in env:
-                if name in dfl:
+                if pre is not None and name in pre:
+                    env[name] = pre[name]
+                elif name in dfl:
                     env[name] = self.eval(dfl[name], dfr)
                 else:
                     raise Raised("TypeError", msg=f"missing argument {name} for {fi.qualname}")
@@ -617,6 +620,7 @@ class Evaluator:
         if isinstance(s, (ast.FunctionDef,)):
             sub = FunctionInfo(fr.fi.module, fr.fi.qualname + ".<locals>." + s.name, s, None, "nested",
                                [ast.unparse(d) for d in s.decorator_list])
+            self._definition_time_defaults(sub, fr)
             fv = FuncV(sub, closure=fr)
             for d in reversed(s.decorator_list):
                 fv = self.apply(self.eval(d, fr), [fv], {}, fr, d)
@@ -1072,8 +1076,18 @@ class Evaluator:
     def x_JoinedStr(self, e, fr):
         return StrV("<fstring>")
 
+    def _definition_time_defaults(self, sub, fr):
+        """Default values of a nested function / lambda are evaluated once, where it is defined (lambda f=f: ... binds the
+        current f), not when it is called."""
+        try:
+            sub._eval_defaults = {k: self.eval(v, fr) for k, v in sub.defaults().items()}
+        except Unsupported:
+            sub._eval_defaults = None
+
     def x_Lambda(self, e, fr):
-        return FuncV(FunctionInfo(fr.fi.module if fr.fi else fr.mi.name, "<lambda>", e, None, "lambda"), closure=fr)
+        sub = FunctionInfo(fr.fi.module if fr.fi else fr.mi.name, "<lambda>", e, None, "lambda")
+        self._definition_time_defaults(sub, fr)
+        return FuncV(sub, closure=fr)
 
     def x_IfExp(self, e, fr):
         t = self.truth(self.eval(e.test, fr), fr, e)
